@@ -10,35 +10,44 @@ COMMON_NOTE = ("Trusted: CPython's ast (the parsed tree is what runs), sa.index 
                "written in DESIGN.md. Nothing of bridge_env is imported or executed. Unrecognised code shapes are "
                "reported as ANALYSIS-ERROR (exit 2), never as a pass.")
 
+BIDFOLD = """static analysis: explicit-state exploration of the auction engine's source under the analyser's partial evaluator (numpy vector on a 1-d array model) against an oracle of the Laws; """
 PATHS = 'static analysis: path-sensitive effect summary (all syntactic paths, helpers inlined, reaching-definition substitution) + guards evaluated as truth tables over abstract valuations; enum helper tables by constant folding'
 
 CLAIMS = {
     'C01': dict(
-        technique=PATHS,
-        text='Legality as an inductive invariant of the 38-slot vector: for every call x slot value x flags x last bidder x seat, the '
+        technique=BIDFOLD + PATHS[len('static analysis: '):],
+        text='(R9) Every call sequence over an alphabet of all call kinds (pass, double, redouble, cheapest / denomination-changing / top bids, '
+             'insufficient bids) to depth 6 (8 thorough) from the empty auction, other dealers to depth 4-5, and scripted long auctions incl. the '
+             '319-call maximum, also as compiled by python -O: at every prefix the advertised vector of the 38 calls equals the legal set of the oracle, '
+             'each offered call is accepted iff legal, a refused call is answered ILLEGAL and changes nothing observable.  Symbolic rules for all '
+             'histories (evaluated when the state representation can be bound): legality as an inductive invariant of the 38-slot vector: for every call x slot value x flags x last bidder x seat, the '
              'paths of take_bid consistent with that valuation are shown to (R1) refuse without any write when the slot is 0, (R2) never '
              'refuse otherwise, (R3) start from all-ones minus X/XX, (R4) disable exactly the prefix up to the bid, never pass, (R5) set the '
              'X / XX slots to the double / redouble rights of the NEXT caller, (R7) update the flags as the Laws require, (R8) be the only '
              'writers. Holds for all histories by induction over calls; decided on all paths, not on sampled auctions.',
         ref='4/C01'),
     'C02': dict(
-        technique=PATHS,
-        text='For every call x history shape (length 0..4, last two calls pass or not) x seat: accepting paths end FINISHED exactly when the '
+        technique=BIDFOLD + PATHS[len('static analysis: '):],
+        text='(R5) On the same exploration as C01.R9: the seat on turn, the common history and each seat\'s share of it, has_done and the returned '
+             'state at every prefix equal the oracle (four opening passes / three passes after a bid, double or redouble end the auction, nothing '
+             'else does); after the end every call raises and changes nothing (also under python -O).  Symbolic rules: for every call x history shape (length 0..4, last two calls pass or not) x seat: accepting paths end FINISHED exactly when the '
              'Laws say so; each appends the call once to the common and to the pre-advance seat\'s history; turn advances clockwise (folded '
              'table) or becomes none exactly on FINISHED; after the end every call raises before any write; dealer calls first.',
         ref='4/C02'),
     'C03': dict(
-        technique=PATHS,
-        text='First-to-name table written only by real bids, under the emptiness test of exactly the slot written, with the bidding seat '
+        technique=BIDFOLD + PATHS[len('static analysis: '):],
+        text='(R4) On the same exploration: contract() is None at every unfinished prefix and at every completed auction equals the oracle (last bid, '
+             'doubling state, board vulnerability, declarer = first of the side of the last bid to have named the denomination; passed out with no '
+             'declarer), incl. both partners / both sides naming the denomination and superseded doubles.  Symbolic rules: first-to-name table written only by real bids, under the emptiness test of exactly the slot written, with the bidding seat '
              '(every bid x seat x slot empty/occupied); flags reset by every bid; contract() evaluated under every valuation (ended or not, '
              'passed out, 3 doubling states x 4 vulnerabilities x bidder x recorded first namer) and compared field by field.',
         ref='4/C03'),
     'C04': dict(
-        technique=PATHS + '; order-class folding of calc_highest',
+        technique=PATHS + '; abstract interpretation of calc_highest over the order abstraction of the ranks; bounded while-loop unrolling',
         text='play_card (helpers inlined, leader loop summarised) evaluated for every leader x cards-in-trick x highest-trump position x '
              'highest-led-suit position: record carries the OLD leader and the cards incl. this one, new leader = trump winner else winner of '
-             'the suit of card 0, one +1 to the NEW leader\'s side, turn/trick bookkeeping; calc_highest decided for all tricks by use analysis '
-             '(comparison-only) + folding on all 768 suit-membership x rank-order classes; constructor (dummy, opening leader, passed-out '
+             'the suit of card 0, one +1 to the NEW leader\'s side, turn/trick bookkeeping; calc_highest folded with order-abstract ranks (values that admit only order comparisons; any other use is an analysis '
+             'error) on every asked suit x suits of the 4 cards x weak order of the ranks; fourth-card rule folded on the real engine; constructor (dummy, opening leader, passed-out '
              'refused); has_done <=> 13 tricks.',
         ref='4/C04'),
     'C05': dict(
@@ -58,12 +67,12 @@ CLAIMS = {
              'its policy the hand of the seat on turn (own / dummy). Rests on C05 (rule .D).',
         ref='4/C06'),
     'C07': dict(
-        technique='static analysis: constant-folded vulnerability tables, reaching-definition routing check, role-bound undertrick tables vs closed form',
-        text='PARTIAL. Decided: the vulnerability handed to the table function is that of declarer\'s side for all 4 declarers x 4 board '
-             'vulnerabilities (Contract.is_vul -> Player.is_vul -> Pair.is_vul folded), argument routing in calc_score, passed-out => 0, the six '
-             'undertrick penalties by folding calc_bid_score on its complete down domain (35 bids x 3 doubling states x 2 vulnerabilities x every '
-             'trick count short of the contract) against the closed form of the Laws. NOT decided: the made-contract arithmetic of calc_bid_score '
-             '(runtime values; already enumerated exhaustively by the existing suite).',
+        technique='static analysis: partial evaluation (constant folding) of calc_score over its complete finite domain against the duplicate scoring table; folded vulnerability tables; reaching-definition routing check',
+        text='The complete finite domain the property quantifies over - 35 bids x undoubled/doubled/redoubled x 4 board vulnerabilities x 4 declarers '
+             'x 0..13 tricks = 23520 points, plus the passed-out contracts - is decided: calc_score (with Contract.is_vul / is_passed_out and '
+             'calc_bid_score under it) is folded inside the analyser on every point and compared with the duplicate scoring table (Law 77) written '
+             'out in the checker.  In addition: the vulnerability tables (Contract.is_vul -> Player.is_vul -> Pair.is_vul) as wholes, the argument '
+             'routing in calc_score by reaching definitions, passed-out => 0, and the six undertrick tables on the complete down domain.',
         ref='4/C07'),
     'C15': dict(
         technique='static analysis: table extraction by constant folding of the converter ASTs over complete finite domains; whole-table inverse/injectivity comparison',
@@ -98,10 +107,10 @@ CLAIMS['C13'] = dict(
          'handler in the session code; ILLEGAL from take_bid always leads to raise; parsers never return None.',
     ref='4/C13')
 CLAIMS['C14'] = dict(
-    technique='static analysis: encoders/decoders folded inside the analyser on a covering family of deal shapes x first seats against canonical-form oracles; structural sibling agreement for the numpy pair; slice tiling under three permutations',
+    technique='static analysis: encoders/decoders folded inside the analyser on a covering family of deal shapes x first seats against canonical-form oracles; numpy pair folded on a 1-d array model; slice tiling under three permutations',
     text='PARTIAL. Decided on the covering family (balanced, a void in each suit position, double voids, 13-card suits, freaks, high/low swapped, '
-         'partial deals) x 4 first seats: PBN text canonical and read back, 52-slot vectors, JSON lists ascending under N/E/S/W; numpy pair by '
-         'structure (int(card) <-> int_to_card, same seat); dealer slices tile the pack under any permutation. NOT decided: equality for each '
+         'partial deals) x 4 first seats: PBN text canonical and read back, 52-slot vectors, JSON lists ascending under N/E/S/W; to_np_binary / convert_np_binary folded on a model of '
+         'numpy\'s 1-d arrays for three dtypes (indicator vectors, read back, and reader on checker-built vectors); dealer slices tile the pack under any permutation. NOT decided: equality for each '
          'of the 5.4e28 individual deals (runtime value).',
     ref='4/C14')
 CLAIMS['C17'] = dict(
